@@ -1176,6 +1176,9 @@ def lock_acquire(ctx, ref, node):
 def lock_release(ctx, ref, node):
     o = ctx.obj(ref)
     held = o.f['held']
+    # threading locks can be released by ANY thread: releasing a lock this thread does not hold either
+    # raises (nobody holds it) or silently takes it away from its holder - an obligation, always
+    ctx.oblige('lock.%s.released-only-by-its-holder' % o.meta['name'], held >= 1, node)
     bad = held <= 0
     i = ctx.choose([z3.Not(bad), bad], 'release-unheld')
     if i == 1:
@@ -1191,6 +1194,14 @@ def lock_method(ctx, interp, ref, o, name, args, kwargs, node):
     if name in ('release',):
         lock_release(ctx, ref, node)
         return NONE
+    if name == 'locked' and not args:
+        # True if ANY thread holds the lock: certain when this thread does, unknown otherwise
+        held = o.f['held']
+        mine = held >= 1
+        i = ctx.choose([mine, z3.Not(mine)], 'locked-by-me')
+        if i == 0:
+            return VBool(True)
+        return VBool(z3.Bool(fresh_name('locked_by_another_thread')))
     raise Unsupported('lock method %s' % name, node)
 
 
